@@ -211,6 +211,7 @@ def run(ctx):
 
     # ---------------- R18.7
     single_pass_unescape(ctx)
+    table_entry_arithmetic(ctx)
 
 
 def table_lookups(ctx):
@@ -345,3 +346,150 @@ def single_pass_unescape(ctx):
             if not ok:
                 r7.fail('%s/second-pass' % b.nid, mirq.site(b, bb), 'the escape pattern is scanned over %s, i.e. over text that has already been decoded once: a backslash produced by the first pass (from `\\\\\\\\` or `\\\\u{5c}`) starts a new escape in the second' % o)
     r7.need(1)
+
+
+# ---------------------------------------------------------------------------------------------------------------------------------
+# R18.8 arithmetic on entries of the char-start table
+# ---------------------------------------------------------------------------------------------------------------------------------
+def _fs_units(mir, body, op, depth=4, _seen=None):
+    """units of a usize operand inside fenced_string.rs: 'table' (an entry of a char-start table: a byte offset), 'byte' (a length
+    of a buffer / &str), 'cp' (an index or count of characters: usize / Option<usize> parameters of the methods, the length of a
+    table, FencedString::len), 'const'.  Backwards over data dependences; an element access follows the collection only (the index
+    is what is being converted); a closure parameter takes the units of the receiver of the adaptor the closure is handed to, a
+    captured variable those of the captured operand."""
+    from .lib import mirq
+    from .lib.facts import op_place, strip_generics, callee_name
+    out = set()
+    if 'const' in op:
+        return {'const'}
+    p0 = op_place(op)
+    if p0 is None:
+        return out
+    seen = _seen if _seen is not None else set()
+    defs = body.defs()
+
+    def visit_place(p):
+        names = [e.get('n') for e in p['p'] if isinstance(e, dict) and 'n' in e]
+        if 'char_starts' in names:
+            out.add('table')
+            return
+        if 'buffer' in names:
+            return
+        if body.kind == 'closure' and p['l'] == 1:
+            fs = [e['f'] for e in p['p'] if isinstance(e, dict) and 'f' in e]
+            if fs and depth > 0:
+                for pb, bb, j in mirq.closure_creation_sites(mir, body.id):
+                    ops = pb.blocks[bb]['stmts'][j]['rv'].get('ops') or []
+                    if fs[0] < len(ops):
+                        out.update(_fs_units(mir, pb, ops[fs[0]], depth - 1))
+            return
+        visit_local(p['l'])
+
+    def visit_local(l):
+        if (body.id, l) in seen:
+            return
+        seen.add((body.id, l))
+        ds = defs.get(l, [])
+        if not ds and 1 <= l <= body.d['argc']:
+            if body.kind == 'closure':
+                if depth <= 0:
+                    return
+                for pb, bb, j in mirq.closure_creation_sites(mir, body.id):
+                    cl = pb.blocks[bb]['stmts'][j]['place']['l']
+                    holders = {cl}
+                    for cbb, ct in pb.calls():
+                        als = [op_place(a) for a in ct['args']]
+                        if any(a is not None and not a['p'] and a['l'] in holders for a in als):
+                            for a, o in zip(als, ct['args']):
+                                if a is not None and a['l'] not in holders:
+                                    out.update(_fs_units(mir, pb, o, depth - 1))
+                return
+            ty = (body.local_ty(l) or '').replace(' ', '')
+            if ty in ('usize', 'std::option::Option<usize>', '&usize'):
+                out.add('cp')
+            return
+        for kind, bb, idx, x in ds:
+            if kind == 'call':
+                nm = strip_generics(callee_name(x) or x.get('decl') or '')
+                a0 = ((x.get('argtys') or [''])[0] or '').replace(' ', '')
+                if nm.endswith('::len'):
+                    if nm == 'util::fenced_string::FencedString::len':
+                        out.add('cp')
+                    elif 'usize' in a0:
+                        out.add('cp')
+                    else:
+                        out.add('byte')
+                    continue
+                if nm in ('util::fenced_string::FencedString::bytes', 'core::char::methods::<impl char>::len_utf8'):
+                    out.add('byte')
+                    continue
+                if nm.endswith('CharIndices as std::iter::Iterator>::next') or 'CharIndices' in a0:
+                    out.add('byte')
+                    continue
+                if re.search(r'::(get|get_unchecked|index|first|last|get_mut|index_mut)$', nm) and x['args']:
+                    p = op_place(x['args'][0])
+                    if p is not None:
+                        visit_place(p)
+                    continue
+                # closures handed to adaptors: what they return
+                for a in x['args']:
+                    p = op_place(a)
+                    if p is None:
+                        continue
+                    if not p['p']:
+                        k2, v2 = mirq.chase(body, p['l'])
+                        if k2 == 'rv' and v2[2]['rv']['k'] == 'agg' and v2[2]['rv'].get('ak') == 'closure':
+                            cb = mir.by_id.get(v2[2]['rv'].get('def'))
+                            if cb is not None and depth > 0:
+                                out.update(_fs_units(mir, cb, {'copy': {'l': 0, 'p': []}}, depth - 1))
+                            continue
+                    visit_place(p)
+            else:
+                rv = x['rv']
+                for key in ('op', 'a', 'b'):
+                    if isinstance(rv.get(key), dict):
+                        if 'const' in rv[key]:
+                            out.add('const')
+                        p = op_place(rv[key])
+                        if p is not None:
+                            visit_place(p)
+                if 'place' in rv:
+                    visit_place(rv['place'])
+                for o in rv.get('ops', []):
+                    p = op_place(o)
+                    if p is not None:
+                        visit_place(p)
+    visit_place(p0)
+    return out
+
+
+def table_entry_arithmetic(ctx):
+    """R18.8: the entries of a char-start table are byte offsets into the buffer.  Wherever an entry is added to / subtracted from
+    something (re-basing the table of a slice, shifting the table of an appended string, the gap test of the constructor), the
+    other operand is a byte quantity too (an entry, a buffer length) or a constant -- never a character index or count."""
+    from .lib import mirq
+    from .lib.facts import strip_generics, callee_name
+    mir = ctx.mir
+    r8 = ctx.rule('R18.8', 'entries of the char-start table (byte offsets) are combined only with byte quantities')
+    for b in mir.bodies:
+        if b.file != FS or '::tests::' in b.nid:
+            continue
+        sites = []
+        for i, j, s in b.stmts():
+            if s['k'] == 'assign' and s['rv']['k'] == 'bin' and s['rv']['op'] in ('Add', 'Sub', 'AddWithOverflow', 'SubWithOverflow', 'AddUnchecked', 'SubUnchecked'):
+                sites.append((mirq.site(b, i, j), s['rv']['op'], s['rv']['a'], s['rv']['b'], (i, j)))
+        for bb, t in b.calls():
+            nm = callee_name(t) or ''
+            m = re.search(r'as std::ops::(Add|Sub)(<[^>]*>)?>::(add|sub)$', nm)
+            if m and len(t['args']) == 2 and 'usize' in nm:
+                sites.append((mirq.site(b, bb), m.group(1), t['args'][0], t['args'][1], (bb, 'call')))
+        for where, op, a, o2, key in sites:
+            ua, ub = _fs_units(mir, b, a), _fs_units(mir, b, o2)
+            if 'table' not in ua and 'table' not in ub:
+                continue
+            ok = 'cp' not in ua and 'cp' not in ub
+            fn = strip_generics(mir.enclosing_fn(b)) if b.kind == 'closure' else b.nid
+            r8.inst({'fn': fn, 'site': where, 'op': op, 'left': sorted(ua), 'right': sorted(ub)}, ok=ok, kind=(b.nid, key))
+            if not ok:
+                r8.fail('%s/table-entry-%s-char-count' % (fn.split('::')[-1], op.lower()[:3]), where, 'an entry of the char-start table (a byte offset) is %s a character index / count: the table of the result no longer points at the starts of its characters for text with multi-byte characters before the slice (substring(1, ..) of "éa" yields a table starting at 1 instead of 0)' % ('reduced by' if op.startswith('Sub') else 'added to'))
+    r8.need(2)
